@@ -237,3 +237,19 @@ prop("C11", "exploration",
          {"fuzz": "FuzzC11CellBlock", "thorough": {"fuzztime": "120s", "workers": 8, "timeout": 500}},
      ],
      ["frames are at most 1 MiB (larger declared sizes are clamped)"])
+
+
+prop("C19", "exploration",
+     "property-based testing (rapid) of Close at generated points (gated through the simulated cluster) under virtual "
+     "time; oracle on call outcomes, open connections at the servers, cluster activity and leftover goroutines",
+     "Generated workloads are parked in a chosen state (idle, in flight, ZooKeeper / meta / dial / probe held, "
+     "back-off, dial refused), Close runs once/twice/concurrently and the awaited event happens afterwards; calls must "
+     "return promptly with success or a client-closed error, and at quiescence nothing is open, active or running.",
+     "Trusted: the simulated cluster's view of open connections; synctest's check that no goroutine of the bubble is "
+     "left. Interleavings inside the client are sampled. A caller inside a retry back-off sleep is given until the end "
+     "of that sleep.",
+     [
+         {"test": "TestC19_Close", "quick": {"checks": 5000, "timeout": 300},
+          "thorough": {"checks": 50000, "shards": 16, "timeout": 2400}},
+     ],
+     ["'promptly' is read as 100 ms of virtual time (end of the current back-off sleep for a caller in back-off)"])
